@@ -51,7 +51,10 @@ def run(ctx, chk):
         return
 
     def leaf(name):
-        return T('field', upd, name)
+        v = upd
+        for part in str(name).split('.'):       # a field of a nested private struct: `last.has_measurement`
+            v = T('field', v, part)
+        return v
 
     def env_for(state):
         fsm, measured, flags = state
